@@ -33,7 +33,7 @@ def toHex (bs : List UInt8) : String :=
 
 def lcgNext (x : UInt64) : UInt64 := x * 6364136223846793005 + 1442695040888963407
 
-def genData (spec : String) : Option (List UInt8) :=
+def genOne (spec : String) : Option (List UInt8) :=
   match spec.splitOn ":" with
   | ["rep", n, pat] =>
     let p := (parseHex pat).toArray
@@ -65,6 +65,12 @@ def genData (spec : String) : Option (List UInt8) :=
         out := out.push (UInt8.ofNat ((x >>> 33).toNat % mod))
     return some out.toList
   | _ => none
+
+/-- a spec may be a '+'-separated concatenation of segments (as in the harness) -/
+def genData (spec : String) : Option (List UInt8) :=
+  (spec.splitOn "+").foldl (fun acc s => match acc, genOne s with
+    | some a, some b => some (a ++ b)
+    | _, _ => none) (some [])
 
 def encLine (d : List UInt8) : String := "E 1 " ++ toHex (encode mirCfg d)
 
